@@ -3,10 +3,10 @@ From MQ Require Import Model.Stream Model.Api Proofs.BytesP Proofs.VbP Proofs.Wi
      Proofs.SpecWireP Proofs.AcceptP Proofs.RoundP Proofs.PropsP Proofs.SpecRoundP Proofs.SpecUniqP Spec.Mqtt5 Spec.Glue.
 From Coq Require Import Lia.
 
-(* The full statement (Findings/C03_disconnect.v, C03_full) is refuted by
-   the known finding D13: DISCONNECT carrying property 0x11, 0x1c or
-   0x1f. C03_valid_frames below is the full statement with exactly that
-   case taken out: for every abstract frame of the specification
+(* The statement in full (since the repair of D13 - DISCONNECT carrying
+   Session Expiry Interval, Reason String or Server Reference used to be
+   rejected, the type now has fields and accessors for them - no valid frame
+   is excepted): for every abstract frame of the specification
    (Spec/Mqtt5.v: any of the fifteen types, the properties table 2-4 allows
    for the packet in any order, once-only identifiers at most once, values
    within their type, every legal short form, explicit zero values, empty
@@ -15,9 +15,7 @@ From Coq Require Import Lia.
    bytes the specification's encoder writes are read by ReadPacket, under
    any delivery and followed by anything, without error, as a packet of the
    matching type whose accessors are exactly the specification's reading of
-   the frame ([frame_obs], an absent property counting as zero). The only
-   clause of [frame_ok] that is the library's and not the specification's
-   is the last one for DISCONNECT (user properties only: D13).
+   the frame ([frame_obs], an absent property counting as zero).
    No bound on the number of properties, filters or reason codes. *)
 Theorem C03_valid_frames : forall f, frame_ok f -> len (e_body (af_body f)) < 268435456 ->
   exists k p,
@@ -41,8 +39,7 @@ Print Assumptions C03_valid_frames.
    accepts: for every abstract frame valid in the specification's own terms
    ([sframe_ok], Proofs/SpecRoundP.v - it adds to [frame_ok] only checks the
    library does not need: non-empty filter and reason-code lists,
-   subscription-option bits, CONNECT's reserved and will bits, and it lifts
-   the DISCONNECT restriction), the decoder returns exactly that frame from
+   subscription-option bits, CONNECT's reserved and will bits), the decoder returns exactly that frame from
    the encoder's bytes *)
 Theorem C03_spec_consistent : forall f, sframe_ok f -> spec_decode (spec_encode f) = Some f.
 Proof. exact spec_roundtrip. Qed.
@@ -57,20 +54,19 @@ Proof. exact spec_language. Qed.
 Print Assumptions C03_spec_language.
 
 (* The property over byte sequences: every byte string the strict decoder
-   of the specification accepts - except a DISCONNECT carrying a property
-   other than user properties (known finding D13) - is read by ReadPacket,
+   of the specification accepts is read by ReadPacket,
    under any delivery and whatever follows it on the stream, without error,
    as a packet of the matching type whose accessors are the specification's
    reading of those bytes. *)
-Theorem C03_every_valid_frame : forall d f, spec_decode d = Some f -> d13_free f ->
+Theorem C03_every_valid_frame : forall d f, spec_decode d = Some f ->
   exists k p,
     kind_nibble k = af_type f /\ snapshot k p = frame_obs f
     /\ forall s rest, sbytes s = d ++ rest -> avail (len d) s = true ->
         exists tr, read_packet s =
           RP {| r_pkt := Some (k, p); r_err := None; r_rest := sdrop (len d) s; r_trace := tr; r_got := d |}.
 Proof.
-  intros d f Hd Hf. destruct (spec_decode_inv d f Hd) as [-> Hok].
-  apply C03_valid_frames; [apply sframe_frame_ok; assumption|exact (proj2 Hok)].
+  intros d f Hd. destruct (spec_decode_inv d f Hd) as [-> Hok].
+  apply C03_valid_frames; [apply sframe_frame_ok; exact Hok|exact (proj2 Hok)].
 Qed.
 Print Assumptions C03_every_valid_frame.
 
@@ -125,10 +121,10 @@ Print Assumptions C03_ack_short.
 
 (* DISCONNECT and AUTH of length 0, DISCONNECT of length 1, PINGREQ, PINGRESP *)
 Theorem C03_short_forms : forall c,
-  frame_snapshot xe0 [] = Some (KDisconnect, [ON 0; OL []])
-  /\ spec_snapshot xe0 [x00] [] = Some (14, [ON 0; OL []])
-  /\ frame_snapshot xe0 [c] = Some (KDisconnect, [ON (b2n c); OL []])
-  /\ spec_snapshot xe0 [x01] [c] = Some (14, [ON (b2n c); OL []])
+  frame_snapshot xe0 [] = Some (KDisconnect, [ON 0; ON 0; OS []; OS []; OL []])
+  /\ spec_snapshot xe0 [x00] [] = Some (14, [ON 0; ON 0; OS []; OS []; OL []])
+  /\ frame_snapshot xe0 [c] = Some (KDisconnect, [ON (b2n c); ON 0; OS []; OS []; OL []])
+  /\ spec_snapshot xe0 [x01] [c] = Some (14, [ON (b2n c); ON 0; OS []; OS []; OL []])
   /\ frame_snapshot xf0 [] = Some (KAuth, [ON 0; OS []; OS []; OS []; OL []])
   /\ spec_snapshot xf0 [x00] [] = Some (15, [ON 0; OS []; OS []; OS []; OL []])
   /\ frame_snapshot xc0 [] = Some (KPingReq, []) /\ spec_snapshot xc0 [x00] [] = Some (12, [])
@@ -157,3 +153,14 @@ Proof.
     apply dec_enc_userprop; assumption.
 Qed.
 Print Assumptions C03_fields.
+
+(* the witness of the former finding D13: a DISCONNECT with reason 0x81 and
+   reason string "hi" is valid by the specification and decoded *)
+Theorem C03_disconnect_properties :
+  spec_decode [xe0; x07; x81; x05; x1f; x00; x02; x68; x69]
+  = Some {| af_type := 14; af_flags := 0;
+            af_body := BDisc 2 129 [{| ap_id := 31; ap_val := VStr [x68; x69] |}] |}
+  /\ frame_snapshot xe0 [x81; x05; x1f; x00; x02; x68; x69]
+     = Some (KDisconnect, [ON 129; ON 0; OS [x68; x69]; OS []; OL []]).
+Proof. exact disconnect_reason_string_accepted. Qed.
+Print Assumptions C03_disconnect_properties.
